@@ -121,6 +121,14 @@ CHECKS["C14"] = dict(
     technique="TLA+ structural embedding check with TLC plus spec->impl replay of every wire-model behaviour through lift / lower and the protocol-parameterised API",
 )
 
+CHECKS["C17"] = dict(
+    category="model_checking",
+    text="spec/Dissector.tla gives the statement language of the generated Wireshark fragments (parser.txt etc., REGENERATED from the working tree and parsed by tools/dissector_front.py: 547 opcode programs, ~5,000 statements) an operational semantics over a byte buffer, incl. the second cursor for decompressed tvbs; TLC runs the dissector program of every Vanilla world / login opcode (per direction and protocol version) over every behaviour of spec/WowmWire.tla within bounds and checks Refines - same consumption sequence (offsets, widths, endianness), same arms, halts exactly at the end of the body - and Declared (every hf_* field, variable and enumerator constant referenced is declared / registered with the wowm value). quick ~3,000 behaviours, thorough ~63,000.",
+    design_ref="DESIGN.md section 5 C17, notes/C17.md",
+    note="Trusted: tools/dissector_front.py, tools/wowm_front.py + lower.py, the documented Wireshark API semantics and the documented type semantics for the hand-written C helpers (Wireshark is not installed), name-based linking of case labels and enumerator constants. Arms are compared through the fields they consume; array element widths only through the total length.",
+    technique="TLA+ operational semantics of the dissector fragment language; refinement against the wire model's behaviours decided by TLC on the regenerated generator output",
+)
+
 NOT_YET = {}
 
 def main():
